@@ -521,7 +521,7 @@ func (p Sqlite) UpdateContactPoint(contact *alertutils.Contact) error {
 		return err
 	}
 
-	contactExists, _, err := p.verifyContactExists(contact.ContactId)
+	contactExists, currentContact, err := p.verifyContactExists(contact.ContactId)
 	if err != nil {
 		err = fmt.Errorf("UpdateContactPoint: unable to verify if contact exists, contact name: %v, Error=%+v", contact.ContactName, err)
 		log.Error(err.Error())
@@ -533,6 +533,8 @@ func (p Sqlite) UpdateContactPoint(contact *alertutils.Contact) error {
 		log.Error(err.Error())
 		return err
 	}
+	// an update edits the contact, it does not hand it to another org (the org_id of a request body is not to be trusted)
+	contact.OrgId = currentContact.OrgId
 
 	// the lists of the request replace the stored ones, also when they are empty;
 	// one transaction, so that a failing save does not leave the contact without its lists
